@@ -83,7 +83,7 @@ func plans(id, tier string) (Plan, bool) {
 		return Plan{Level: "exploration", Jobs: []Job{
 			{Pkg: pkgV2, Harness: "c06_tokens", Shards: pick(4, 16)},
 			{Pkg: pkgV2, Harness: "c06_match", Params: map[bool]string{false: "docs=431;positions=1", true: "docs=431;positions=12"}[th], Shards: 16},
-			{Pkg: pkgV2, Harness: "c06_match", Params: map[bool]string{false: "docs=4;maxbytes=1200;positions=0;kinds=notice,marker,split", true: "docs=60;maxbytes=6000;positions=0"}[th], Shards: 16},
+			{Pkg: pkgV2, Harness: "c06_match", Params: map[bool]string{false: "docs=4;maxbytes=1200;positions=0;kinds=notice,marker,split,splitnotice", true: "docs=60;maxbytes=6000;positions=0"}[th], Shards: 16},
 		}}, true
 	case "C07":
 		if th {
@@ -118,6 +118,11 @@ func plans(id, tier string) (Plan, bool) {
 			// every yield site (no calibration filter), one delay
 			jobs = append(jobs, Job{Pkg: pkgV2, Harness: "c09_sched", Instr: "v2coarse", Params: fmt.Sprintf("scenario=%d;threads=2;policy=delay;budget=1;maxsite=100000", sc), Shards: 2})
 		}
+		for _, sc := range map[bool][]int{false: {1, 7, 8}, true: {0, 1, 2, 3, 6, 7, 8, 9, 10}}[th] {
+			// access profile: every field of the package's struct types and every package variable is a
+			// monitored location; a write that is unordered with another call's access is a violation
+			jobs = append(jobs, Job{Pkg: pkgV2, Harness: "c09_sched", Instr: "v2access", Params: fmt.Sprintf("scenario=%d;threads=2;policy=delay;budget=1;maxsite=100000;monitor=access", sc), Shards: 2})
+		}
 		if th {
 			for sc := 0; sc < 4; sc++ {
 				jobs = append(jobs, Job{Pkg: pkgV2, Harness: "c09_sched", Instr: "v2fine", Params: fmt.Sprintf("scenario=%d;threads=2;policy=delay;budget=2", sc), Shards: 4})
@@ -139,11 +144,12 @@ func plans(id, tier string) (Plan, bool) {
 			jobs = append(jobs, Job{Pkg: pkgV2, Harness: "c10_total", Params: fmt.Sprintf("shape=%d;maxlen=%d", sh, ml), Shards: shards, MaxProcs: 2})
 		}
 		jobs = append(jobs, Job{Pkg: pkgV2, Harness: "c10_total", Params: fmt.Sprintf("shape=4;maxlen=%d", pick(1, 2)), Shards: pick(4, 16), MaxProcs: 2})
+		jobs = append(jobs, Job{Pkg: pkgV2, Harness: "c10_window", Shards: 16})
 		return Plan{Level: "exploration", Jobs: jobs}, true
 	case "C11":
 		return Plan{Level: "exploration", Jobs: []Job{
 			{Pkg: pkgV2, Harness: "c11_tokens", Shards: pick(8, 16)},
-			{Pkg: pkgV2, Harness: "c11_match", Params: "families=exact,scenario" + map[bool]string{false: "", true: ",concat,edit1"}[th], Shards: 16},
+			{Pkg: pkgV2, Harness: "c11_match", Params: "families=exact,scenario,recase" + map[bool]string{false: "", true: ",concat,edit1"}[th], Shards: 16},
 		}}, true
 	case "C12":
 		return Plan{Level: "exploration", Jobs: []Job{
